@@ -210,16 +210,22 @@ impl<'a> TypstTranslator<'a> {
         // Parse a function call
         let parse_func_call = |func: FuncCall| {
             let parse_args_ignored = |ignore_pos: bool, ignore_nameds: &[&str]| {
-                let (dead, alive): (Vec<_>, Vec<_>) = func.args().items().partition(|a| match a {
-                    Arg::Pos(_) => ignore_pos,
-                    Arg::Named(named) => ignore_nameds.contains(&named.name().as_str()),
-                    Arg::Spread(_) => false,
-                });
-
+                // Keep the arguments in text order: tokens must never run backwards.
                 Some(
-                    dead.iter()
-                        .flat_map(|a| token!(a, TokenKind::Unlintable))
-                        .chain(parse_args(&mut alive.into_iter()))
+                    func.args()
+                        .items()
+                        .filter_map(|a| {
+                            let dead = match &a {
+                                Arg::Pos(_) => ignore_pos,
+                                Arg::Named(named) => ignore_nameds.contains(&named.name().as_str()),
+                                Arg::Spread(_) => false,
+                            };
+                            if dead {
+                                token!(a, TokenKind::Unlintable)
+                            } else {
+                                parse_args(&mut std::iter::once(a))
+                            }
+                        })
                         .flatten()
                         .collect_vec(),
                 )
@@ -347,12 +353,12 @@ impl<'a> TypstTranslator<'a> {
             }
             Expr::Set(set_rule) => merge![
                 recurse!(set_rule.target()),
-                set_rule.condition().and_then(|expr| recurse!(expr)),
-                parse_args(&mut set_rule.args().items())
+                parse_args(&mut set_rule.args().items()),
+                set_rule.condition().and_then(|expr| recurse!(expr))
             ],
             Expr::Show(show_rule) => merge![
-                recurse!(show_rule.transform()),
-                show_rule.selector().and_then(|expr| recurse!(expr))
+                show_rule.selector().and_then(|expr| recurse!(expr)),
+                recurse!(show_rule.transform())
             ],
             Expr::Contextual(contextual) => recurse!(contextual.body()),
             Expr::Conditional(conditional) => merge![
